@@ -275,8 +275,6 @@ def dec2ddm(dec):""", note='sign flag dropped in dec2dms: wrong for -1 < x < 0')
     # ---- C03: geodetic <-> Cartesian ---------------------------------------------------------------------------------
     dict(id='c03-iterstop', props=['C03'], file='geodepy/convert.py', old="    while abs(itercheck) > 1e-10:",
          new="    while abs(itercheck) > 1e-6:", note='xyz2llh iteration stop 1e-10 -> 1e-6'),
-    dict(id='c03-ecc-swap', props=['C03'], file='geodepy/convert.py', old="    latinit = atan((z*(1+ellipsoid.ecc2sq))/p)",
-         new="    latinit = atan((z*(1+ellipsoid.ecc1sq))/p)", note='ecc1sq <-> ecc2sq in the initial latitude (harmless: the iteration absorbs it)'),
     dict(id='c03-ecc-swap-iter', props=['C03'], file='geodepy/convert.py',
          old="        lat = atan((z + nu * ellipsoid.ecc1sq * sin(lat))/p)", new="        lat = atan((z + nu * ellipsoid.ecc2sq * sin(lat))/p)",
          note='ecc1sq <-> ecc2sq inside the iteration'),
